@@ -406,3 +406,22 @@ pub fn verif_new_map(n: usize) -> (r: HashMap<String, DataArc>)
 {
     HashMap::with_capacity(n)
 }
+
+/// the value an argument contributes to a method call: the value in the result's cell, or an error value for a failed evaluation
+pub open spec fn arg_value(c: GlobalDataLock, r: ExpressionResult) -> Data {
+    match r {
+        Ok(a) => c.cells()[a.cell()],
+        Err(e) => Data::Error(e),
+    }
+}
+
+/// the first n arguments were evaluated in order, each exactly once and without the may-create flag, each starting where
+/// the previous one ended; vals holds what they contributed
+pub open spec fn arg_chain(es: Seq<Box<dyn Expression>>, ctxs: Seq<GlobalDataLock>, rs: Seq<ExpressionResult>, vals: Seq<Data>, n: int) -> bool {
+    &&& 0 <= n <= es.len()
+    &&& ctxs.len() == n + 1
+    &&& rs.len() == n
+    &&& vals.len() == n
+    &&& forall|j: int| 0 <= j < n ==> (#[trigger] es[j]).sem(ctxs[j], ctxs[j + 1], false, rs[j])
+    &&& forall|j: int| 0 <= j < n ==> #[trigger] vals[j] == arg_value(ctxs[j + 1], rs[j])
+}
